@@ -295,6 +295,17 @@ namespace smt
         }
     }
 
+    // scales a variable-level bound by an integer coefficient and adds a constant: an infinite bound stays infinite (it neither overflows nor gets shifted)..
+    static I scale_bound(const I &bound, const I &c, const I &k) noexcept
+    {
+        if (bound >= idl_theory::inf())
+            return c >= 0 ? idl_theory::inf() : -idl_theory::inf();
+        else if (bound <= -idl_theory::inf())
+            return c >= 0 ? -idl_theory::inf() : idl_theory::inf();
+        else
+            return bound * c + k;
+    }
+
     SMT_EXPORT std::pair<I, I> idl_theory::bounds(const lin &l) const
     {
         I c_lb(0);
@@ -315,13 +326,13 @@ namespace smt
                 throw std::invalid_argument("not a valid integer difference logic constraint..");
             if (it->second.numerator() >= 0)
             {
-                c_lb += lb(it->first) * it->second.numerator() + l.known_term.numerator();
-                c_ub += ub(it->first) * it->second.numerator() + l.known_term.numerator();
+                c_lb = scale_bound(lb(it->first), it->second.numerator(), l.known_term.numerator());
+                c_ub = scale_bound(ub(it->first), it->second.numerator(), l.known_term.numerator());
             }
             else
             { // a negative coefficient swaps the bounds..
-                c_lb += ub(it->first) * it->second.numerator() + l.known_term.numerator();
-                c_ub += lb(it->first) * it->second.numerator() + l.known_term.numerator();
+                c_lb = scale_bound(ub(it->first), it->second.numerator(), l.known_term.numerator());
+                c_ub = scale_bound(lb(it->first), it->second.numerator(), l.known_term.numerator());
             }
             break;
         }
@@ -337,13 +348,13 @@ namespace smt
             const auto dist = distance(v1, v0); // the bounds of v0 - v1, to be scaled back by the leading coefficient..
             if (c.numerator() >= 0)
             {
-                c_lb += dist.first * c.numerator() + l.known_term.numerator();
-                c_ub += dist.second * c.numerator() + l.known_term.numerator();
+                c_lb = scale_bound(dist.first, c.numerator(), l.known_term.numerator());
+                c_ub = scale_bound(dist.second, c.numerator(), l.known_term.numerator());
             }
             else
             {
-                c_lb += dist.second * c.numerator() + l.known_term.numerator();
-                c_ub += dist.first * c.numerator() + l.known_term.numerator();
+                c_lb = scale_bound(dist.second, c.numerator(), l.known_term.numerator());
+                c_ub = scale_bound(dist.first, c.numerator(), l.known_term.numerator());
             }
             break;
         }
